@@ -5,11 +5,11 @@ V = os.path.dirname(os.path.dirname(os.path.abspath(__file__)))
 
 CHECKS = {
  "C11": ("fault_enumeration", "3.6",
-   "Seeded simulation of the real DirHandler/ZIP cache code on a scratch tree: the stored cache is truncated at sampled and (for a fixed small directory) every byte offset, zero-filled, or its writer is killed / hits ENOSPC inside write(); concurrent listings run under the deterministic scheduler with torn writes so a reader can observe a writer. Every later response must equal the sequential reference listing. Sampling, not proof, except the per-prefix sweep of the fixed directory.",
+   "Seeded simulation of the real DirHandler/ZIP cache code on a scratch tree: the stored cache is truncated at sampled offsets and, for two fixed small directories, at EVERY byte offset (one-entry directory: all ~3 000 prefixes in the quick tier), zero-filled, or its writer is killed / hits ENOSPC inside write() or only at close(), optionally after the directory changed since the cache was first written (so an interrupted in-place rewrite cannot hide behind identical bytes); concurrent listings run under the deterministic scheduler with torn writes so a reader can observe a writer. Every later response must equal the sequential reference listing. Sampling, not proof, except the per-prefix sweep of the fixed directory.",
    "Trusts the simulator (simkit): crash granularity is write() calls plus explicit truncation; TLS/kernel TCP/fork are stubs; dbm.dumb is the only dbm back end here.",
    "deterministic simulation: crash-point / ENOSPC / torn-write injection at the file seam + seeded PCT scheduling of concurrent readers vs writer, reference-model comparison"),
  "C12": ("fault_enumeration", "3.7",
-   "Seeded simulation of real directory listings over a scratch tree containing one or two unservable entries (dangling/looping symlink, FIFO, socket, names the security filter rejects, stat failing with ENOENT/EACCES/EIO after enumeration, deletion injected exactly between enumeration and the n-th stat/open of that entry) at varied sort positions, through every listing protocol, both directory handlers and both server types. The listing must succeed and every other entry must equal the reference listing. Fault kinds x positions are enumerated by index for the first runs and sampled afterwards.",
+   "Seeded simulation of real directory listings over a scratch tree containing one or two unservable entries (dangling/looping symlink, FIFO, socket, names the security filter rejects, stat failing with ENOENT/EACCES/EIO/ELOOP after enumeration, deletion injected exactly before the n-th file-system call that touches the entry or its sidecar, special files named like a UMN dot link file or like a neighbour's .abstract/.keywords/.ask/.3d sidecar, a link-file block that hides or titles the unservable entry) at varied sort positions, through every listing protocol, both directory handlers and both server types. The listing must succeed and every other entry must equal the reference listing. Fault kinds x positions are enumerated by index for the first runs and sampled afterwards.",
    "Trusts the simulator; deletion races are injected at seam calls rather than by a free-running actor; FIFO open is modelled as blocking for ever.",
    "deterministic simulation: per-entry fault injection at the stat/open/listdir seam (incl. vanish-at-call), real special files, reference-model comparison of parsed listings"),
  "C20": ("fault_enumeration", "3.10",
@@ -29,7 +29,7 @@ CHECKS = {
    "Trusts the simulator and a 20-line visible-set model (dot-file, re.search(ignorepatt, selectorbase/name), Type=X in .cap or a ./ link block). One known finding (D12: plain DirHandler lists dot-files).",
    "deterministic simulation: seeded/exhaustive readdir-order permutation at the listdir seam, determinism-across-orders oracle + independent visible-set model"),
  "C19": ("fault_enumeration", "3.9",
-   "initialization.initialize() runs for real on a generated config file with every privileged entry point (socket bind, TLS key load, fork, setpgrp, signal, pwd/grp lookups, chroot, chdir, setgroups, setregid, setreuid and their set*id relatives) replaced by a recorder backed by a process model (root dir, cwd, uid, gid, groups) that enforces the kernel's preconditions and fails one chosen call. The grid (usechroot x setuid x setgid x TLS x detach x server type) x (no fault or each applicable call failing) x (error kind) is finite and enumerated completely in both tiers (evidence: exhaustive=true); order, exactly-once, final credentials, root rewritten, cwd inside the new root, abort on failure and no privileged call after a failure are checked over the recorded call sequence.",
+   "initialization.initialize() runs for real on a generated config file with every privileged entry point (socket bind, TLS key load, fork, setpgrp, signal, pwd/grp lookups, chroot, chdir, setgroups, setregid, setreuid and their set*id relatives) replaced by a recorder backed by a process model (root dir, cwd, real/effective/saved uid and gid, groups; started as plain root or through a set-uid-root binary; reserved and unreserved ports) that enforces the kernel's preconditions and fails one chosen call. The grid (usechroot x setuid x setgid x TLS x detach x server type) x (no fault or each applicable call failing) x (error kind) is finite and enumerated completely in both tiers (evidence: exhaustive=true); order, exactly-once, final credentials, root rewritten, cwd inside the new root, abort on failure and no privileged call after a failure are checked over the recorded call sequence.",
    "Privileged system calls are modelled, not executed; the process is assumed to start as root with a cwd outside the document root.",
    "deterministic simulation of the privileged-syscall seam: recorded call sequence + process model, exhaustive single-fault enumeration over the option grid"),
  "C03": ("exploration", "3.3",
